@@ -66,7 +66,7 @@ pub fn exec(op: &str, a: &[Vec<u8>]) -> Option<Resp> {
             let l32 = (n == 32) as u8;
             let l64 = (n == 64) as u8;
             let vk = (n == 32 && Aff::decompress(&a32(&a[0])).is_some()) as u8;
-            Resp::Ok(vec![l32, l32, l32, l32, vk, l32, l64, l64, l64, l64])
+            Resp::Ok(vec![1, l32, l32, l32, l32, vk, l32, l64, l64, l64, l64])
         }
         "tot.nonspec_map" => {
             let mut h = [0u8; 64];
